@@ -202,9 +202,9 @@ def gen_program(rng, big=None):
     seedctr = rng.below(900)
     nsteps = rng.range(5, 12)
     has_recstride = False
-    # one program in three may stride along the record dimension (the request class that
-    # flatten_req mishandles under aggregation would otherwise dominate every aggregated run)
-    allow_recstride = rng.chance(1, 3)
+    # strides along the record dimension (the request class flatten_req mishandled under
+    # aggregation before the fix) are part of every program's vocabulary
+    allow_recstride = True
     for si in range(nsteps):
         c = rng.below(100)
         v = rng.choice(s.vars)
